@@ -30,7 +30,9 @@ type CompCase struct {
 	Budget   int    `json:"budget,omitempty"`    // number of damage positions to try
 	All      bool   `json:"all,omitempty"`       // enumerate every position
 	DSeed    uint64 `json:"dseed,omitempty"`
-	Fill     int    `json:"fill,omitempty"` // record contents: 0 pseudo-random, 1 zeros, 2 one constant byte (tag bytes aside)
+	Fill     int    `json:"fill,omitempty"`     // record contents: 0 pseudo-random, 1 zeros, 2 one constant byte (tag bytes aside)
+	ResetAt  []int  `json:"reset_at,omitempty"` // after these records the Writer is Reset onto a fresh stream (earlier streams are checked intact)
+	Reuse    bool   `json:"reuse,omitempty"`    // the Reader first reads the intact stream and is then Reset onto the stream under test
 	// table
 	Pairs     []Rec  `json:"pairs,omitempty"`
 	BlockSize int    `json:"bs,omitempty"`
@@ -138,12 +140,32 @@ func (d *dropCounter) Drop(err error) { d.n++ }
 
 // readJournal reads a journal like goleveldb's recovery does.
 func readJournal(data []byte, strict bool) (recs [][]byte, err error, panicked string) {
+	return readJournalReuse(nil, data, strict)
+}
+
+// readJournalReuse: like recovery, which uses one Reader for all journal
+// files: the Reader first reads prelude completely (with the other strictness)
+// and is then Reset onto data.
+func readJournalReuse(prelude, data []byte, strict bool) (recs [][]byte, err error, panicked string) {
 	defer func() {
 		if r := recover(); r != nil {
 			panicked = fmt.Sprint(r)
 		}
 	}()
-	jr := journal.NewReader(bytes.NewReader(data), &dropCounter{}, strict, true)
+	var jr *journal.Reader
+	if prelude != nil {
+		jr = journal.NewReader(bytes.NewReader(prelude), &dropCounter{}, !strict, !strict)
+		for {
+			rd, e := jr.Next()
+			if e != nil {
+				break
+			}
+			io.Copy(io.Discard, rd)
+		}
+		jr.Reset(bytes.NewReader(data), &dropCounter{}, strict, true)
+	} else {
+		jr = journal.NewReader(bytes.NewReader(data), &dropCounter{}, strict, true)
+	}
 	for {
 		rd, e := jr.Next()
 		if e == io.EOF {
@@ -191,7 +213,39 @@ func runJournal(c *Case, out *RunOut) {
 		}
 		orig = append(orig, rb)
 		acked = append(acked, false)
-		pending = append(pending, i)
+		pending = append(pending, len(orig)-1)
+		resetNow := false
+		for _, ra := range cc.ResetAt {
+			if ra == i && cc.FailAt == 0 {
+				resetNow = true
+			}
+		}
+		if resetNow {
+			// hand the Writer a fresh stream; what it still buffers belongs
+			// to the old one, which must read back exactly
+			old, oldOrig := fw, orig
+			fw = &failWriter{}
+			if err := w.Reset(fw); err != nil {
+				viol("reset-error", fmt.Sprintf("Writer.Reset returned %v", err))
+				return
+			}
+			for _, strict := range []bool{true, false} {
+				recs, err, pan := readJournal(old.buf.Bytes(), strict)
+				if pan != "" || err != nil || len(recs) != len(oldOrig) {
+					viol("reset-lost", fmt.Sprintf("the stream the Writer was Reset away from reads back %d of %d records (strict=%v, error %v %s)", len(recs), len(oldOrig), strict, err, pan))
+					return
+				}
+				for k := range recs {
+					if !bytes.Equal(recs[k], oldOrig[k]) {
+						viol("reset-lost", fmt.Sprintf("record %d of the stream the Writer was Reset away from differs", k))
+						return
+					}
+				}
+			}
+			out.Probes["journal-writer-reset"]++
+			orig, acked, pending = nil, nil, pending[:0]
+			continue
+		}
 		if i < len(cc.Flush) && cc.Flush[i] {
 			if err := w.Flush(); err != nil {
 				werr = true
@@ -240,9 +294,15 @@ func runJournal(c *Case, out *RunOut) {
 		return
 	}
 	byteDamage := false
+	intact := data
 	cut := -1 // >= 0 while truncations are examined: the stream ends here
 	check := func(what string, d []byte, strict bool, damaged map[int]bool, anyDamage bool) bool {
-		recs, err, pan := readJournal(d, strict)
+		var prelude []byte
+		if cc.Reuse {
+			prelude = intact
+			what += " (Reader reused through Reset)"
+		}
+		recs, err, pan := readJournalReuse(prelude, d, strict)
 		if pan != "" {
 			viol("panic", fmt.Sprintf("%s: reader panicked: %s", what, pan))
 			return false
@@ -908,6 +968,12 @@ func genComponent(prop string, seed uint64, g *gen, thorough bool) *Case {
 			cc.FailKind = []string{"err", "short"}[r.intn(2)]
 		}
 		cc.Fill = r.pick(0, 0, 0, 1, 2)
+		cc.Reuse = r.p(0.4)
+		if cc.FailAt == 0 && r.p(0.3) {
+			for i := r.rng(1, 3); i > 0 && n > 1; i-- {
+				cc.ResetAt = append(cc.ResetAt, r.intn(n-1))
+			}
+		}
 		cc.Budget = 48
 		if thorough {
 			cc.Budget = 512
